@@ -8,6 +8,7 @@ package mem
 // variants and both directions in every tier (no scrypt here).
 
 import (
+	"crypto/sha256"
 	"fmt"
 	"strings"
 	"testing"
@@ -42,6 +43,17 @@ func c36Renormalise(s string) string {
 	return strings.Replace(s, decomposed, composed, 1)
 }
 
+// c36LongKeyDigest: HMAC replaces a key longer than its block size (64 bytes
+// for SHA-256) by the key's digest; a KDF built on HMAC may therefore treat a
+// long password and the 32 raw digest bytes as the same password.
+func c36LongKeyDigest(s string) string {
+	if len(s) <= 64 {
+		return s
+	}
+	d := sha256.Sum256([]byte(s))
+	return string(d[:])
+}
+
 func c36DropLast(s string) string {
 	_, n := utf8.DecodeLastRuneInString(s)
 	return s[:len(s)-n]
@@ -54,16 +66,17 @@ var c36Variants = []c36Variant{
 	{"trailing-ideographic-space", func(s string) string { return s + "\u3000" }},
 	{"case-change", c36SwapCase},
 	{"unicode-normalisation", c36Renormalise},
-	{"trailing-tab", func(s string) string { return s + "\t" }},
 	{"trailing-nul", func(s string) string { return s + "\x00" }},
+	{"trailing-tab", func(s string) string { return s + "\t" }},
 	{"leading-newline", func(s string) string { return "\n" + s }},
 	{"trailing-nbsp", func(s string) string { return s + "\u00a0" }},
 	{"leading-bom", func(s string) string { return "\ufeff" + s }},
 	{"char-appended", func(s string) string { return s + "x" }},
 	{"char-removed", c36DropLast},
+	{"hmac-long-key-digest", c36LongKeyDigest},
 }
 
-var c36NearMissBases = []string{"", "Secret\u00e9", "p", "пароль", " x "}
+var c36NearMissBases = []string{"", "Secret\u00e9", "p", "пароль", " x ", strings.Repeat("x", 65)}
 
 func TestVerifC36MemNearMiss(t *testing.T) {
 	var vnames []string
@@ -91,7 +104,12 @@ func TestVerifC36MemNearMiss(t *testing.T) {
 			x.Nontrivial()
 			s := New()
 			k1, created, err := s.Key("a", stored)
-			x.Check(err == nil && created && k1 != nil, "create-failed", "Key(a,%q) on an empty keystore = created %v, err %v", stored, created, err)
+			if err != nil {
+				x.Logf("creation refused: %v", err) // see the file keystore harness
+				x.Outcome("creation-refused")
+				return
+			}
+			x.Check(created && k1 != nil, "create-failed", "Key(a,%q) on an empty keystore = created %v, err %v", stored, created, err)
 			k2, created, err := s.Key("a", other)
 			x.Outcome(fmt.Sprintf("near-miss:rejected=%v", err != nil))
 			x.Check(err != nil, "near-miss-password-accepted:"+v.name, "key stored with %q was opened with %q (created=%v, key returned=%v)", stored, other, created, k2 != nil)
